@@ -283,6 +283,26 @@ PROPS["C13"] = {
     ],
 }
 
+PROPS["C09"] = {
+    "level": "exploration",
+    "rule": "cases are histories (3-22 ops) over 3-5 locations sharing one storage and a SimpleLocationProvider: SetParents (in 3/4 "
+            "of the cases only towards 'later' locations, i.e. forests and multi-parent DAGs; in 1/4 arbitrary targets incl. self, 2- "
+            "and 3-cycles), facts and rules with location-qualified ids, a deliberately unqualified fact id 'shared', RemFact, RemRule, "
+            "and EnableRule of own and foreign (inherited) rule ids; indexed or linear. After every operation the observation vector "
+            "of every location (2 searches with and without inheritance, rule list with and without, 2 events) is compared with the "
+            "model whose ancestor closure is computed at observation time; for a location whose parent chain loops the inherited "
+            "search and the event dispatch must report an error. Non-trivial = an ancestor chain of depth >= 2, a changed parent "
+            "list followed by inherited observations, or a loop. Distinct = distinct canonical JSON.",
+    "assumptions": COMMON_ASSUMPTIONS + [
+        "a location reached through two different parents (a diamond) is unspecified (counted once or twice) and skipped",
+        "the sys.System provider path is exercised by C17's and C13's checks, not here",
+    ],
+    "parts": [
+        {"name": "parents", "mode": "plain", "test": "TestC09",
+         "quick": {"checks": 1200, "shards": 4}, "thorough": {"checks": 15000, "shards": 16}},
+    ],
+}
+
 # Properties deliberately not claimed (reason shown in MANIFEST.not_applicable).
 NOT_APPLICABLE = {}
 
@@ -348,6 +368,11 @@ TEXT = {
         "technique": _PBT + "grammar-based hostile-document generation against every role and API level; totality oracle (panic/fatal/hang via journaled child) + differential canary transcript vs fresh twin",
         "level_text": "Generated exploration of hostile inputs; process death and hangs are observed from outside the process. Not a proof; native coverage-guided fuzzing was not needed to find the defects listed.",
         "level_note": "Trusted: journaled child-process runner; canary transcript comparison. The one known crasher (dependency) is excluded by construction and replayed on every run.",
+    },
+    "C09": {
+        "technique": _PBT + "stateful generated multi-location histories vs per-location reference model with ancestor closure at observation time; full observation vector of every location after every step",
+        "level_text": "Generated exploration of forests, DAGs and cyclic parent graphs; interference is any change of a location's vector that the model does not predict. Not a proof.",
+        "level_note": "Trusted: reference model; 3-5 locations, <= 22 operations; loops die fast through a 64 MiB stack limit and the journaled child.",
     },
     "C05": {
         "technique": _PBT + "generated (pattern, data, bindings) vs independent brute-force matcher; substitution round-trip; metamorphic typed variants",
